@@ -1051,6 +1051,21 @@ func (w *world) commitFrom(adb *account.AccountDB, touched map[common.Address]bo
 	}
 	w.rec.failAt = -1
 	w.rec.failPutAt = -1
+	if w.rec.backend != nil {
+		var ks []string
+		for _, pw := range w.rec.log {
+			for _, it := range pw.items {
+				ks = append(ks, it.k)
+			}
+		}
+		for _, it := range w.rec.refused {
+			ks = append(ks, it.k) // a refused batch must not have reached the real store either
+		}
+		if d := w.rec.mirrorDiff(ks); d != "" {
+			r.violate("real-store-differs-from-recorded-writes", d)
+		}
+		r.stats["real_store_keys_checked"] += len(ks)
+	}
 	if w.rec.faults > 0 && cerr == nil {
 		r.violate("write-error-swallowed", fmt.Sprintf("the store refused %d write(s) during the commit of %x but NodeDatabase.Commit returned nil", w.rec.faults, root[:4]))
 	}
@@ -1285,6 +1300,17 @@ func (r *runner) scenarioState(idx int, big bool, nblocks int) {
 	}
 	setForkConfig(p002)
 	defer func() { setForkConfig(0); common.SetBlockHeight(0) }()
+	if rg.Chance(1, 4) || idx%8 == 3 {
+		// the production store: xdb.LDBDatabase (LevelDB under ./storage0) behind the recorder
+		ldb, err := xdb.NewLDBDatabase(fmt.Sprintf("c03-%s-%d-%d", r.mode, r.seed, idx), 8, 8)
+		if err == nil {
+			w.rec.backend = ldb
+			r.stats["scenarios_on_real_leveldb"]++
+			defer ldb.Close()
+		} else {
+			r.stats["leveldb_open_failed"]++
+		}
+	}
 	r.step(fmt.Sprintf("-- fork config: Proposal002Block=%d", p002))
 	defer w.checkRetained()
 	for b := 0; b < nblocks; b++ {
